@@ -984,6 +984,9 @@ class Index(IndexBase):
             key: a label key.
         '''
         if self._map is None: # loc is iloc
+            if self._recache:
+                # positions are stale after a grow-only append
+                self._update_array_cache()
             is_bool_array = key.__class__ is np.ndarray and key.dtype == DTYPE_BOOL #type: ignore
 
             try:
